@@ -1545,6 +1545,48 @@ theorem setRange_congr (l : List K) :
     exact List.forall₂_same.mpr (fun x _ => normLon_congr x)
   · exact List.forall₂_same.mpr (fun x _ => ⟨0, by simp⟩)
 
+/-- one variable whose entries use either convention, or both mixed in one array
+    (`−180 ≤ x ≤ 360`): the result lies in `[−180, 180]` -/
+theorem setRange_ok_mixed (l : List K) (h : ∀ x ∈ l, -180 ≤ x ∧ x ≤ 360) :
+    ∀ y ∈ setRange fl (fun x => decide (180 < x)) l, -180 ≤ y ∧ y ≤ 180 := by
+  intro y hy
+  unfold setRange at hy
+  split at hy
+  · rcases List.mem_map.mp hy with ⟨x, _, rfl⟩
+    exact ⟨(normLon_range x).1, le_of_lt (normLon_range x).2⟩
+  · rename_i hany
+    refine ⟨(h y hy).1, ?_⟩
+    by_contra hc
+    apply hany
+    rw [List.any_eq_true]
+    exact ⟨y, hy, by simpa using hc⟩
+
+omit [IsStrictOrderedRing K] in
+/-- **per variable**: what a longitude variable becomes depends only on that variable, whatever
+    the other longitude variables of the dataset hold -/
+theorem setRangeAll_local (pre post : List (List K)) (l : List K) :
+    (setRangeAll fl (fun x => decide (180 < x)) (pre ++ l :: post))[pre.length]?
+      = some (setRange fl (fun x => decide (180 < x)) l) := by
+  unfold setRangeAll
+  rw [List.map_append, List.map_cons, List.getElem?_append_right (by simp)]
+  simp
+
+/-- **carried longitudes are normalised, variable by variable**: whatever convention each of
+    `node_lon`, `edge_lon`, `face_lon` uses (−180..180, 0..360, or both mixed — drawn independently
+    per variable), every carried longitude ends in `[−180, 180]` and is the source's longitude
+    modulo 360. -/
+theorem carried_lon_normalised (vars : List (List K))
+    (h : ∀ l ∈ vars, ∀ x ∈ l, -180 ≤ x ∧ x ≤ 360) :
+    List.Forall₂ (fun src out =>
+        (∀ y ∈ out, -180 ≤ y ∧ y ≤ 180) ∧
+        List.Forall₂ (fun x y => ∃ k : ℤ, y = x + 360 * (k : K)) src out)
+      vars (setRangeAll fl (fun x => decide (180 < x)) vars) := by
+  unfold setRangeAll
+  rw [List.forall₂_map_right_iff]
+  apply List.forall₂_same.mpr
+  intro l hl
+  exact ⟨setRange_ok_mixed l (h l hl), setRange_congr l⟩
+
 end Lon
 
 example : normLon (fl (K := ℚ)) 270 = -90 := by
@@ -1553,6 +1595,10 @@ example : normLon (fl (K := ℚ)) 270 = -90 := by
   rw [this]; norm_num
 example : setRange (fl (K := ℚ)) (fun x => decide (180 < x)) [-170, 10, 180] = [-170, 10, 180] := by
   unfold setRange; norm_num
+/-- corners −120..−80 (left alone), centres 240..280 (wrapped): each variable on its own -/
+example : (setRangeAll (fl (K := ℚ)) (fun x => decide (180 < x)) ([] ++ ([-120, -80] : List ℚ) :: [[240]]))[([] : List (List ℚ)).length]?
+    = some ([-120, -80] : List ℚ) := by
+  rw [setRangeAll_local]; unfold setRange; norm_num
 
 
 end UxVerif.C01
